@@ -886,6 +886,8 @@ def _coll_oracle(interp, env, f, args, t, bb, path):
     if isinstance(v0, Agg) and v0.kind == "repeat":
         if nm == "take" and isinstance(args[1], int):
             return It([v0.fields[0]] * args[1])
+        if nm == "by_ref":
+            return v0        # an endless stateless generator: taken by reference it is the same generator
         return TOP
     if dk in ("alloc::vec::from_elem", "alloc::vec::spec_from_elem::SpecFromElem::from_elem") and len(args) >= 2 and isinstance(args[1], int):
         return new_vec(interp, [args[0]] * args[1])
